@@ -10,6 +10,7 @@ package main
 //   publisher_released            a publisher parked inside the backend (a subscriber's window and queue are full) is released
 //                                 when that subscriber's connection ends — by close, DISCONNECT, or the token timeout
 //   fault_closes_offender / fault_will   a backend call failing at one call site ends that connection only, will as due
+//   keepalive_enforced / silent_peer_dropped   a peer that falls silent (after or before its CONNECT) is dropped in bounded time
 //   rejected_released             rejected credentials: CONNACK 5, connection closed, no Setup/Terminate, no will
 //   late_connection_released      a connection arriving during / after the backend's shutdown is refused and released
 //   shutdown_closes_all           Close with live clients returns in time and every connection is closed
@@ -343,13 +344,14 @@ func hostiles() []hostile {
 	})
 	// a subscriber that never acknowledges fills its window (1) and queue (2); a publisher's next QoS 1 publish then waits inside
 	// the backend, holding its global mutex, until the subscriber's connection goes away — it must be released then
-	for _, how := range []string{"close", "disconnect", "token-timeout"} {
+	for _, how := range []string{"close", "close-persistent", "disconnect-persistent", "token-timeout"} {
 		how := how
 		hs = append(hs, hostile{"subscriber-with-full-queue-ends-by-" + how, 1, 2, func(sc *scen, c *hx.Ctx) {
 			b := sc.s.backend
 			subp := sc.dial("stall", false)
 			pubp := sc.dial("stallpub", true)
-			if subp.connect("stall", true, nil) == nil || !subp.subscribe(1, "stall/#", 1) || pubp.connect("stallpub", true, nil) == nil {
+			// a clean subscriber has a temporary session, a persistent one a stored session: the backend treats them in two places
+			if subp.connect("stall", !strings.HasSuffix(how, "persistent"), nil) == nil || !subp.subscribe(1, "stall/#", 1) || pubp.connect("stallpub", true, nil) == nil {
 				sc.direct("publisher_released", false, "could not connect")
 				return
 			}
@@ -357,10 +359,10 @@ func hostiles() []hostile {
 				pubp.send(&packet.Publish{ID: packet.ID(i), Message: packet.Message{Topic: "stall/x", Payload: []byte("p"), QOS: 1}})
 			}
 			parked := waitFor(long, func() bool { return b.parked("stallpub") >= 1 && ackCount(pubp) >= 3 })
-			switch how {
-			case "close":
+			switch {
+			case strings.HasPrefix(how, "close"):
 				subp.close()
-			case "disconnect":
+			case strings.HasPrefix(how, "disconnect"):
 				subp.send(&packet.Disconnect{})
 			}
 			// token-timeout: nothing is done; the subscriber's dequeuer gives up waiting for a window slot and the broker drops it
@@ -531,6 +533,40 @@ func badCredentials(o *out, c *hx.Ctx) {
 		fmt.Sprintf("%d of 4 unauthorised attempts (presenting the witness's client id) got CONNACK 5 and were closed; witness still connected=%v; wills of rejected clients published: %d", bad, obs.isOpen(), obs.countTopic("will/bad")))
 }
 
+// silentPeers: a peer that says nothing (or half a CONNECT) is dropped after the connect timeout, a client that goes silent
+// after its CONNECT after one and a half keep-alive intervals: no goroutine of the broker waits for a peer for ever
+func silentPeers(o *out, c *hx.Ctx) {
+	sc := o.begin(c, "c14 silent peers: keep-alive and connect timeout", 3, 100)
+	defer sc.end()
+	wit := sc.dial("wit", true)
+	if wit.connect("wit", true, nil) == nil || !wit.subscribe(1, "will/#", 1) {
+		sc.direct("witness", false, "the witness could not connect")
+		return
+	}
+	ka := sc.dial("ka", true)
+	cp := packet.NewConnect()
+	cp.ClientID = "ka"
+	cp.KeepAlive = 1
+	cp.Will = &packet.Message{Topic: "will/ka", Payload: []byte("silent"), QOS: 1}
+	ka.send(cp)
+	acked := ka.await(isConnack, long) != nil
+	t0 := time.Now()
+	dropped := ka.isClosed(long)
+	sc.direct("keepalive_enforced", acked && dropped && waitFor(long, func() bool { return wit.countTopic("will/ka") >= 1 }),
+		fmt.Sprintf("client with keep-alive 1 s that goes silent: acknowledged=%v, dropped by the broker=%v after %.1fs, will published=%v", acked, dropped, time.Since(t0).Seconds(), wit.countTopic("will/ka") >= 1))
+	// from now on a connection has 300 ms to present its CONNECT (the witness is connected already)
+	sc.s.engine.ConnectTimeout = 300 * time.Millisecond
+	full := connectBytes("slow")
+	var notDropped []string
+	for name, chunks := range map[string][][]byte{"nothing sent": nil, "first byte of a CONNECT": {full[:1]}, "half a CONNECT": {full[:len(full)/2]}, "all but the last byte": {full[:len(full)-1]}} {
+		if !rawExpectClose(sc.s.port, chunks...) {
+			notDropped = append(notDropped, name)
+		}
+	}
+	sort.Strings(notDropped)
+	sc.direct("silent_peer_dropped", len(notDropped) == 0 && wit.ping(), fmt.Sprintf("connections that never complete their CONNECT and were not dropped after the connect timeout: %v; the witness is still served", notDropped))
+}
+
 // shutdownBetweenAuthAndSetup: the backend is closed after a connection passed Authenticate and before it calls Setup
 func shutdownBetweenAuthAndSetup(o *out, c *hx.Ctx) {
 	sc := o.begin(c, "c14 backend closed between a connection's Authenticate and its Setup", 3, 100)
@@ -645,6 +681,7 @@ func runC14(c *hx.Ctx) {
 			faultAtCallSite(o, c, kind)
 		}
 		badCredentials(o, c)
+		silentPeers(o, c)
 		// backend shutdown racing with connection setup, and backend calls failing for whoever comes n-th
 		for _, kind := range []string{"shutdown-race", "fail-setup", "fail-publish", "fail-subscribe", "fail-terminate"} {
 			sc := o.begin(c, "c14 "+kind, 10, 1000)
